@@ -39,7 +39,7 @@ class NotifMonitor:
         self.mp_seen = set()
         self.bp_seen = set()
         self.handed = []          # (token, step, source, height)
-        self.notified = set()
+        self.notified = {}        # token -> step of the latest notification containing it
         self.last_bp = None       # (height, step)
         self.last_mp = None
         self.db_height = None
@@ -51,7 +51,7 @@ class NotifMonitor:
     def clone(self):
         m = NotifMonitor.__new__(NotifMonitor)
         m.step, m.mp_seen, m.bp_seen = self.step, set(self.mp_seen), set(self.bp_seen)
-        m.handed, m.notified = list(self.handed), set(self.notified)
+        m.handed, m.notified = list(self.handed), dict(self.notified)
         m.last_bp, m.last_mp, m.db_height = self.last_bp, self.last_mp, self.db_height
         m.violations, m.joins, m.notifs = list(self.violations), self.joins, self.notifs
         m.in_start = self.in_start
@@ -87,14 +87,15 @@ class NotifMonitor:
     def on_notify(self, height, touched):
         self.notifs += 1
         if self.in_start:
-            if touched:
-                self.notified.update(touched)
+            for t in touched:
+                self.notified[t] = self.step
             return
         if height not in self.mp_seen or height not in self.bp_seen:
             self.violations.append(('notify/before-both-reported',
                                     f'notification for height {height} issued without '
                                     f'{"a mempool refresh" if height not in self.mp_seen else "a block report"} at that height'))
-        self.notified.update(touched)
+        for t in touched:
+            self.notified[t] = self.step
 
     def after_handover(self):
         '''Rule (b): evaluated after the hand-over call returned.'''
@@ -106,7 +107,7 @@ class NotifMonitor:
         e = min(self.last_bp[1], self.last_mp[1])
         join_h = self.db_height
         for (t, step, source, h) in self.handed:
-            if step <= e and t not in self.notified:
+            if step <= e and self.notified.get(t, -1) < step:
                 rel = 'same' if h == join_h else ('lower' if h < join_h else 'higher')
                 self.violations.append((f'notifications/lost/{source}/{rel}-height',
                                         f'{source} hand-over at height {h} (step {step}) is in no notification although both '
